@@ -2,7 +2,7 @@
    only panics are the two documented ones of the threshold setters. *)
 From Grex Require Import Base.Str Model.Config Model.Builder Model.Cluster Model.Dfa Model.Expr
   Model.Pipeline.
-From Grex Require Import Proofs.Lang Proofs.Construction Proofs.Wrappers Proofs.PropsGlue.
+From Grex Require Import Proofs.Lang Proofs.Construction Proofs.Wrappers Proofs.PropsGlue Proofs.PropsGlueBuilder.
 From Grex Require Import Engine.Syntax Engine.Parse.
 From Grex Require Import Proofs.Spec Proofs.PrintParseNum Proofs.PrintParseDefs Proofs.PrintParseXTok
   Proofs.EndToEnd Proofs.EndToEndVerbose.
